@@ -1,7 +1,7 @@
 (* C04 — Invalid chains are reported as errors up front; nothing panics. *)
 From Coq Require Import List Arith Bool Permutation.
 Import ListNotations.
-From NJ Require Import Base Edits Registry Classify Select Reorder Machine Spec Bind SpecLemmas ClassifyProofs ReorderProofs Refine Chain WfProofs.
+From NJ Require Import Base Edits Registry Classify Select Reorder Machine Spec Bind SpecLemmas ClassifyProofs ReorderProofs Refine Chain WfProofs FuelProofs.
 
 (* Run time: a bound chain (plan passing the decidable check evaluated on every case) never hands
    reflect.Call an invalid Value — the only way the slot machine can fail — for any provider
@@ -55,3 +55,28 @@ Theorem C04_run_safe_every_bound_chain : forall c pl b,
     ~ In RPanic (snd (run_session W beh_fn beh_wrap b (mkSess W w0 (bd_base0 b) false true) steps)).
 Proof. exact run_safe_bound. Qed.
 Print Assumptions C04_run_safe_every_bound_chain.
+
+(* Nothing hangs: the worklist loops of the selection terminate.  They are modelled with fuel; the
+   fuel the model gives them is sufficient - the flow-checking passes never report the out-of-fuel
+   error (each productive pass takes an include mark away or sets a cannotInclude mark, at most two
+   per provider), and eliminateUnused and the keep-closures of proposeEliminations return the same
+   result for any larger fuel. *)
+Theorem C04_flow_checks_never_out_of_fuel : forall te crd funcs,
+  snd (validate_chain te crd funcs) <> Some EB_INTERNAL.
+Proof. exact validate_chain_fuel. Qed.
+Print Assumptions C04_flow_checks_never_out_of_fuel.
+
+Theorem C04_eliminate_unused_fuel_suffices : forall funcs k,
+  elim_unused (length funcs + total_uses funcs + 1 + k) funcs (seq_from 0 (length funcs)) = eliminate_unused funcs.
+Proof. exact eliminate_unused_fuel. Qed.
+Print Assumptions C04_eliminate_unused_fuel_suffices.
+
+Theorem C04_keep_closure_fuel_suffices : forall useLast groups funcs k,
+  let n := length funcs in
+  let idx := seq_from 0 n in
+  let roots := filter (fun i => flagp (fun p => negb (p_excluded p) &&
+                   (p_required p || p_desired p || (p_wanted p && negb (p_wic p)))) funcs i) idx in
+  let fuel := (n + 1) * (total_details funcs + 2) + n + 1 in
+  keep_closure (fuel + k) useLast groups funcs roots [] = keep_closure fuel useLast groups funcs roots [].
+Proof. exact propose_keep_fuel. Qed.
+Print Assumptions C04_keep_closure_fuel_suffices.
